@@ -16,6 +16,8 @@ def callee(fn):
 
 
 def is_iterable(m, v):
+    if isinstance(v, sym.CallRes):
+        return True       # the (generator) result of a repository generator function
     return isinstance(v, (tuple, str)) or (isinstance(v, Ref) and (v.kind in ("iter", "gen", "list", "deque", "consumed") or
                                                                        (v.kind == "obj" and v.elem in STREAM_CLASSES)))
 
@@ -34,7 +36,9 @@ def Stream(m, args, kwargs):
         raise Unsupported("Stream() with %d arguments" % len(args))
     (a,) = args
     if is_iterable(m, a):
-        if isinstance(a, Ref) and a.kind == "obj":
+        if isinstance(a, sym.CallRes):
+            data = a             # iter(generator) is the generator
+        elif isinstance(a, Ref) and a.kind == "obj":
             data = stream_iter(m, a)
         else:
             data = m.iter_of(a)
@@ -306,3 +310,14 @@ def StreamTeeHub(m, args, kwargs):
 
 
 STD_GLOBS["StreamTeeHub"] = StreamTeeHub
+
+
+def repo_call_generic(label):
+    """a generator function given as a parameter: calling it creates a (lazy)
+    generator object, identified by the label and its arguments"""
+    @callee
+    def f(m, args, kwargs):
+        bound = {"arg%d" % i: a for i, a in enumerate(args)}
+        bound.update(kwargs)
+        return sym.CallRes(label, bound)
+    return f
